@@ -21,7 +21,8 @@ from vlib import Scratch, tlc, tv, Report, log, tier, seed
 DBS = {
     "normal": ".z,192.0.2.53,a\n+a.z,192.0.2.1\n+a.z,192.0.2.2\n+*.w.z,192.0.2.3\n&d.z,192.0.2.54,a\n'a.z,hello\nCc.z,a.z\n@z,192.0.2.25,a\n"
               "Mz,\\155\\061\nM*.z,\\155\\061\n8*.z,\\145\\062\n8z,\\145\\062\n%\\001\\001,10.0.0.0/8,\\155\\061\n%\\001\\001,10.0.0.0/8,\\145\\062\n%\\001\\002,2001:db8::/32,\\145\\062\n"
-              "+a.z,192.0.2.9,,,\\001\\001\nHa.z,.,60,,1,alpn=h2\n" + "".join("'big.z,%s\n" % (("%02d" % i) * 30) for i in range(40)),
+              "+a.z,192.0.2.9,,,\\001\\001\nHa.z,.,60,,1,alpn=h2\n" + "".join("'big.z,%s\n" % (("%02d" % i) * 30) for i in range(40))
+              + "".join("'mid.z,%s\n" % (("%02d" % i) * 20) for i in range(20)),
     "rootzone": "..,192.0.2.53,a\n+a.z,192.0.2.1\n+x,192.0.2.7\n&d.z,192.0.2.54,a\n'.,roottxt\n" + "".join("'big.z,%s\n" % (("%02d" % i) * 30) for i in range(40)),
     "rootdeleg": "&.,192.0.2.53,a.root-servers.net\n&.,192.0.2.54,b.root-servers.net\n",
     "empty": "#nothing\n",
@@ -49,6 +50,8 @@ def run():
             s.nfile += 1
             s.rows.append({"ev": "file", "id": s.nfile, "text": DBS[db], "serial": 1700000000, "lines": [], "opts": {"cache": True} if cache else None, "keep": False, "tag": db})
             sub = descs[:n] if not cache else descs[:n // 3]
+            if db == "normal" and not cache:
+                sub = sub + [d for d in descs[n:] if d["name"] == 15]          # the buffer-size sweep is never sampled away
             if cache:
                 # the same cache entry reached by queries that differ in letter case, header flags and EDNS
                 D = lambda n, t, e=-1, f=0, op=0: {"name": n, "type": t, "class": 1, "opcode": 0, "edns": e, "size": 4096, "opts": op, "flags": f}
